@@ -225,6 +225,15 @@ class Config(CIBaseModel):
 
 def deep_update(base: dict[str, Any], overlay: dict[str, Any]) -> dict[str, Any]:
     for key, value in overlay.items():
+        # Setting names are case-insensitive, so an overlay entry replaces the
+        # entry it names however either of them is spelled (otherwise both
+        # spellings survive the merge and the later validation picks one by
+        # position rather than by precedence).
+        if isinstance(key, str) and key not in base:
+            key = next(
+                (k for k in base if isinstance(k, str) and k.lower() == key.lower()),
+                key,
+            )
         if key in base and isinstance(base[key], dict) and isinstance(value, dict):
             deep_update(base[key], value)
         else:
